@@ -553,7 +553,7 @@ def shape_family(n=4):
     return fam
 
 
-def gen_shape(idx, n=4):
+def gen_shape(idx, n=4, literal=False):
     fam = shape_family(n)
     n, edges, trans, pmask = fam[idx % len(fam)]
     m = Model()
@@ -572,7 +572,11 @@ def gen_shape(idx, n=4):
         t = m.tasks["t%d" % s]
         pubs = []
         if pmask >> k & 1:
-            pubs.append(("x", ("cat", "x", "|t%d.%d" % (s, len(t.trans)))))
+            if literal:
+                # the same few constants published again and again: identical context entries recur along a path
+                pubs.append(("x", ("lit", ["on", "off"][(s + len(t.trans)) % 2])))
+            else:
+                pubs.append(("x", ("cat", "x", "|t%d.%d" % (s, len(t.trans)))))
         if s in roots and not t.trans:
             pubs.append(("r%d" % s, ("lit", "t%d.r" % s)))
         t.trans.append(Tr(len(t.trans), cond=None, lang=("yaql", "jinja")[(s + k) % 2], pubs=pubs, do=["t%d" % j for j in tg]))
